@@ -87,6 +87,10 @@ def make_bo(sc, m, names, client_events=None):
     if isinstance(noise, list):
         noise = {nm: noise[k] for k, nm in enumerate(names)}
     kw = {}
+    if sc.get("tm_rev"):
+        # the user supplies the surrogate, with its parameters in another order than the model's (alphabetical) one
+        from elfi.methods.bo.gpy_regression import GPyRegression
+        kw["target_model"] = GPyRegression(list(reversed(names)), bounds=bounds)
     bo = elfi.BayesianOptimization(m["d"], bounds=bounds, initial_evidence=ie, update_interval=sc["upd"], acq_noise_var=noise,
                                    batch_size=sc["bs"], batches_per_acquisition=sc["bpa"], async_acq=sc.get("async", False),
                                    max_parallel_batches=sc["maxpar"], seed=sc["seed"], **kw)
@@ -116,7 +120,8 @@ def run_bo(sc, client, log_acq=None):
             ev = dict(ev="acq", id=-1, n=int(n), t=int(t) if t is not None else -1, pend=int(bo.batches.num_pending), raised="", pts=[])
             try:
                 pts = orig(n, t=t)
-                ev["pts"] = [[fx6(v) for v in np.atleast_1d(row)] for row in np.atleast_2d(pts)]
+                perm = [list(bo.target_model.parameter_names).index(nm) for nm in names]      # logged in the MODEL's order
+                ev["pts"] = [[fx6(v) for v in np.atleast_1d(row)[perm]] for row in np.atleast_2d(pts)]
                 return pts
             except Exception as ex:
                 ev["raised"] = type(ex).__name__
@@ -177,8 +182,11 @@ def record_bo(sc):
                 sims.append([r[0], [fx6(v) for v in r[1]], fx6(r[2])])
         sims.sort(key=lambda s: s[0])
         X, Y = np.atleast_2d(bo.target_model.X), np.asarray(bo.target_model.Y).reshape(-1)
+        perm = [list(bo.target_model.parameter_names).index("p%d" % (k + 1)) for k in range(sc["dim"])]
+        dg = xy_digest(X, Y)    # (digest of the surrogate's own arrays, as in seq_digest)
+        X = X[:, perm]          # evidence columns in the MODEL's parameter order (the order of `sims` and `bounds`)
         cl.events.append(dict(ev="end", id=-1, left=len(cl.tasks), raised="", sims=sims, xrows=[[fx6(v) for v in row] for row in X],
-                              yrows=[fx6(v) for v in Y], pre=n_pre, n_evidence=int(bo.n_evidence), digest=xy_digest(X, Y)))
+                              yrows=[fx6(v) for v in Y], pre=n_pre, n_evidence=int(bo.n_evidence), digest=dg))
     except Hang:
         cl.events.append(dict(ev="end", id=-1, raised="Hang"))
     except Exception as ex:
@@ -292,6 +300,8 @@ def scenarios(ctx):
                     upd=rnd.choice([1, 2, 10]), noise=noise, seed=rnd.randint(0, 10 ** 6), acq=rnd.choice(["lcbsc", "lcbsc", "uniform"]))
         if i % 5 == 1:
             base["seed"] = 0                   # the valid seed 0
+        if dim == 2 and i % 4 in (1, 2):
+            base["tm_rev"] = True
         if dim == 2 and i % 2 == 0:
             base["rev_bounds"] = True
             if base["bounds"][0] == base["bounds"][1]:
